@@ -442,6 +442,28 @@ fn main() {
         println!("case not found");
         std::process::exit(2);
     }
+    if mode == "pairs" {
+        // standin pairs <file>: lines `lang<TAB>phrase<TAB>r1|r2`: the phrase (two numbers below 100, optionally joined by the conjunction)
+        // must be rewritten as one of the accepted renderings (both numbers in order, or the one number spelled by exactly those words)
+        let text = std::fs::read_to_string(args.get(2).cloned().unwrap_or_default()).unwrap_or_default();
+        let mut n = 0usize;
+        for line in text.lines() {
+            let f: Vec<&str> = line.split('\t').collect();
+            if f.len() != 3 { continue; }
+            n += 1;
+            let l = lang(f[0]);
+            let got = catch_unwind(AssertUnwindSafe(|| replace_numbers_in_text(f[1], &l, 0.0))).ok();
+            let accepted: Vec<&str> = f[2].split('|').collect();
+            let g = got.clone().unwrap_or_default();
+            if !accepted.iter().any(|a| *a == g) {
+                println!("{}", serde_json::json!({"kind":"call","fn":"replace","lang":f[0],"text":f[1],"threshold":0.0,"expect":{"one_of":accepted},
+                    "what":format!("{:?} rewritten as {:?}, accepted: {:?}", f[1], got, accepted), "cases": n}));
+                return;
+            }
+        }
+        println!("{}", serde_json::json!({"kind":"none","cases":n}));
+        return;
+    }
     if mode == "phrases" {
         // standin phrases <file> [zeros]: every line `lang<TAB>phrase<TAB>digits` must validate to exactly its digits, and be rewritten as
         // one number; with `zeros`, also with one and two leading zero words (C16)
